@@ -3,7 +3,9 @@
 
 mod ctx;
 mod gen;
+mod medium;
 mod prng;
+mod psetgen;
 mod registry;
 mod report;
 mod runner;
